@@ -286,7 +286,7 @@ class Stream(meta(Iterable, metaclass=StreamMeta)):
     """
     if n is None:
       return next(self._data)
-    if isinf(n) and n > 0:
+    if n == inf:
       return constructor(self._data)
     if isinstance(n, float):
       n = rint(n) if n > 0 else 0 # So this works with -inf and nan
@@ -333,10 +333,9 @@ class Stream(meta(Iterable, metaclass=StreamMeta)):
 
     """
     def skipper(data):
-      if isinf(n): # Everything (+inf) or nothing (-inf) is thrown away
-        if n > 0:
-          return
-      else:
+      if n == inf: # Everything is thrown away
+        return
+      if n != -inf: # Nothing is thrown away (and there's no "int(-inf)")
         try:
           for _ in xrange(int(round(n))):
             next(data)
@@ -352,9 +351,9 @@ class Stream(meta(Iterable, metaclass=StreamMeta)):
     """
     Enforces the Stream to finish after ``n`` items.
     """
-    if not (isinf(n) and n > 0): # limit(inf) is "no limit at all"
+    if n != inf: # limit(inf) is "no limit at all"
       self._data = it.islice(self._data,
-                             0 if isinf(n) else
+                             0 if n == -inf else
                              min(max(int(round(n)), 0), maxsize))
     return self
 
